@@ -330,6 +330,9 @@ class T:
                 if ty in PTR_SIZED and not (0 <= r < (1 << 31)) and base in ("Add", "Sub", "Mul", "Shl"):
                     return Term("bin", op, a, b, ty)
                 return T.const(ty, r)
+        # (x + c1) + c2  ->  x + (c1 + c2)   (plain Add only: the checked form keeps its own overflow flag)
+        if op == "Add" and b.op == "const" and a.op == "bin" and a.args[0] == "Add" and a.args[2].op == "const" and a.args[3] == ty:
+            return T.bin("Add", a.args[1], T.const(ty, a.args[2].args[1] + b.args[1]), ty)
         if base in ("Eq", "Le", "Ge") and a is b:
             return T.const("bool", 1)
         if base in ("Ne", "Lt", "Gt") and a is b:
